@@ -51,6 +51,10 @@ def sweep_cases(ctx: core.Ctx, rnd: random.Random, gens: list, repeats: int, *, 
             add(fname, sname, "code", by_name["B1"], {"single_line": True}, tag)
         if i % (6 if q else 1) == 0:
             add(fname, sname, "code", by_name["B1"], {"dot": "force"}, tag)
+    # files longer than the 4 KiB window, in each line-ending convention (add() cycles LF, CRLF, CR)
+    for fname, sname in (("sample.py", "python"), ("sample.c", "c"), ("sample.html", "html")):
+        for _ in range(3):
+            add(fname, sname, "longcode", by_name["B1"], {}, "long-file:" + fname)
     # a request with so many holders that the header outgrows the 4 KiB window the linter reads
     many = [f"Holder Number {i} With A Rather Long Name Incorporated <holder{i}@example.org>" for i in range(70)]
     for fname, sname in (("sample.py", "python"), ("sample.c", "c"), ("sample.html", "html"), ("sample.jl", "julia")):
